@@ -56,10 +56,11 @@ impl<'a> Cursor<'a> {
 }
 
 fn method(c: &mut Cursor) -> Method {
-    match c.u8() % 5 {
+    match c.u8() % 6 {
         0 => Method::Borrow,
         1 => Method::Copy,
         2 => Method::Anchored,
+        5 => Method::AnchoredForeign,
         _ => {
             let n = (c.u8() % 4) as usize;
             let script = (0..n)
